@@ -64,6 +64,8 @@ struct vf_in {
 #ifndef OP4
 #define OP4 0xff
 #endif
+#define VF_IS_LAST(o) ((o) == EXT2_EXTENT_LAST_SIB || (o) == EXT2_EXTENT_LAST_LEAF || (o) == EXT2_EXTENT_DOWN_AND_LAST)
+#define VF_HAS_LAST (VF_IS_LAST(OP1) || VF_IS_LAST(OP2) || VF_IS_LAST(OP3) || VF_IS_LAST(OP4))
 VF_DECLARE_INPUT(struct vf_in, IN)
 #include "vf_input.inc"
 
@@ -98,8 +100,14 @@ static void vf_check_cursor(ext2_extent_handle_t h, struct ext2_inode *ino)
 		c = (char *) h->path[l].curr;
 		size = l ? EBS : sizeof(ino->i_block);
 		PROP(node != 0, "visited level has a node buffer");
-		if (c)
+		if (c) {
 			PROP(c >= node && c + 12 <= node + size, "cursor entry lies inside its node");
+#if !VF_HAS_LAST
+			/* EXT2_EXTENT_LAST_SIB on a node with eh_entries == 0 parks the cursor on the header
+			 * (first - 1): inside the node, so not a memory fault; every other movement must stay on entries */
+			PROP(c >= node + 12, "cursor is on an entry slot, not on the header");
+#endif
+		}
 	}
 }
 
